@@ -291,4 +291,10 @@ def jobs(tier, seed):
                    "checks": ["rollup", "rerun"]},
                   reach=["C03.rerun.rollup(feature)", "C02.rerun.step-statuses==RunSpec(OUT2)"],
                   min_paths=50, cost=9000, validate=100))
+    # reset + second run in which a later feature (with a Rule) is never started (--stop): everything in it is untested again
+    js.append(Job("d.rerun.rule-not-restarted", "vlib.stage1:h_stage1",
+                  {"shapes": [F([S(1)]), F([S(1), R([S(1)])])], "opts": {"out_dom": {"*": [0, 1]}, "undef": False, "stop": "sym", "rerun_reset": True},
+                   "checks": ["rollup", "rerun"]},
+                  reach=["C03.rerun.rollup(feature)", "C02.rerun.step-statuses==RunSpec(OUT2)"],
+                  min_paths=20, cost=3000, validate=100))
     return js
